@@ -154,7 +154,8 @@ namespace nmtools::view
         {
             auto indices_ = pack_indices(indices...);
             auto i = at(indices_,meta::ct_v<0>);
-            return static_cast<element_type>(start) + (i * step);
+            // element 0 is start itself (numpy): for num == 1 with endpoint the step is not finite
+            return static_cast<element_type>(start) + ((i == 0) ? decltype(i * step){0} : (i * step));
         }
     }; // linspace_t
 
